@@ -214,6 +214,18 @@ fn check_case(ctx: &mut Ctx, c: &Case) {
             RLVector::from(b)
         })));
     }
+    if m.runs.len() <= 64 {
+        // the length raised to the start of every run before the run is set (also on the fresh builder)
+        routes.push(("set_len(start) before every run", guard(|| {
+            let mut b = RLBuilder::new();
+            for &(s, l) in &m.runs {
+                b.set_len(s as usize);
+                b.try_set(s as usize, l as usize).unwrap();
+            }
+            b.set_len(m.len as usize);
+            RLVector::from(b)
+        })));
+    }
     for (route, r) in routes {
         match r {
             Ok(v) => {
